@@ -40,8 +40,11 @@ class C10(PropBase):
             "split point of generated files <= 2 KiB and of the corpus witnesses, 1-byte trickle; random: chunk sizes around "
             "5/10/20/40/80/160 KiB on files with lines up to 80 KiB-1, fixed chunk sizes, tiny chunks; non-trivial = the schedule "
             "splits the input at least once and the input has >= 3 lines; distinct = distinct case lines")
-    trusted_base = G.TRUSTED + ["parse_async: modelled (drive_async) and proved equal to parse; the model is tied to its source by the textual "
-                                "twin check against parse on every run (no harness for reqwest::Response; C16 exercises it); HTTP chunks assumed non-empty"]
+    trusted_base = G.TRUSTED + ["parse_async: modelled (drive_async), proved equal to parse, and since round 4 run for real: the harness builds a "
+                                "reqwest::Response whose body yields the schedule as HTTP chunks (Body::wrap over a scripted http_body::Body) and "
+                                "compares result, table, callback bytes/calls and callback slice lengths with drive_async; its loop conditions are "
+                                "regenerated from its own source (translate/symfile_loop.py, c10_async_loop_is_source); the textual twin check "
+                                "against parse stays as a guard; HTTP chunks assumed non-empty"]
     manifest = {
         "text": "Theorems (Coq; all inputs, all reader schedules, any line recogniser): the bytes handed to the callback are exactly the "
                 "first total_consumed bytes of the input, and all of it when the result is Ok (c10_callback_prefix); if every line has "
@@ -52,7 +55,10 @@ class C10(PropBase):
                 "compares chunked with whole-slice parsing (full table equality) and checks the callback bytes against the input. "
                 "Round 2: full symbol table in the model and in the comparison (c10_table_chunk_independent); parse_async modelled and "
                 "proved equal to parse under the schedule of its reads (c10_async_is_sync); parser contract for the symbol cache "
-                "(c10_cached_form_parse).",
+                "(c10_cached_form_parse). Round 4: the streamed verdict is a table or an error, never a panic of finish() "
+                "(c10_streamed_equals_whole_defined); the real parse_async runs in the harness on every case with the schedule as HTTP chunks "
+                "and must agree with the model, with the whole-buffer parse (lines < 80 KiB) and with the sync parse (no line in the "
+                "80..160 KiB band); c10_async_loop_is_source pins parse_async's conditions to its source.",
         "note": "Trusted: Coq kernel; hand-written models (correspondence-checked); buffer contents abstracted to the FIFO contract of "
                 "circular 0.3.0, checked per case; parse_async modelled, tied to its source by a textual twin check against parse. Two defects found and "
                 "fixed in /repo (F-C10a, F-C10b). No axioms.",
